@@ -260,6 +260,15 @@ func (m *Model) groupTree(g *PathGroup, l *Layout) []*RDir {
 			}
 			u.add(md)
 		}
+		// the Protocol directive may stand anywhere among the methods of its URL (a layout choice): first, last, in between
+		if l.R != nil && len(u.Children) > 1 && l.R.Intn(2) == 0 {
+			proto := u.Children[0]
+			rest := append([]*RDir(nil), u.Children[1:]...)
+			at := 1 + l.R.Intn(len(rest))
+			kids := append([]*RDir(nil), rest[:at]...)
+			kids = append(kids, proto)
+			u.Children = append(kids, rest[at:]...)
+		}
 		return []*RDir{u}
 	}
 	standalone := l.R.Intn(100) < l.Standalone
